@@ -26,7 +26,7 @@ void latency(int code) {   // 0: none, 1: short spin, 2: 200 us sleep, 3: 2 ms s
 }
 
 void check_C18(Src &s, Ctx &ctx) {
-    SpecOpts so; so.nonnested = false; so.custom = false; so.conformal = false; so.min_outs = 1; so.max_outs = 2; so.cap = cfg().tier ? 120 : 50; so.max_dims = 3;
+    SpecOpts so; so.nonnested = false; so.custom = false; so.conformal = false; so.min_outs = 1; so.max_outs = 2; so.cap = cfg().tier ? 70 : 50; so.max_dims = 3;
     GridState st; st.cap = so.cap; st.ctx = &ctx;
     st.spec = decode_spec(s, so); st.vm.decode(s);
     if (st.spec.depth > 2) st.spec.depth = 2;
